@@ -321,7 +321,7 @@ func TestVerifC15Stores(t *testing.T) {
 	fresh := func() string {
 		n++
 		d := fmt.Sprintf("%s/c15-%d", dir, n)
-		os.RemoveAll(d)
+		c15Remove(d)
 		os.MkdirAll(d, 0777)
 		return d
 	}
@@ -358,7 +358,7 @@ func TestVerifC15Stores(t *testing.T) {
 			c15LastCounts = nil
 			err := c15Run(c, d)
 			counts := c15LastCounts
-			os.RemoveAll(d)
+			c15Remove(d)
 			rec.Case(committed, vt.Hash(h, st, names), "store:"+st, fmt.Sprintf("names:%d", names))
 			if committed && rec.WantSample(st) {
 				rec.Sample(st, c)
@@ -381,7 +381,7 @@ func TestVerifC15Stores(t *testing.T) {
 						fc := c15Case{Store: "file", Ops: ops, Fault: f, Names: names}
 						d := fresh()
 						err := c15Run(fc, d)
-						os.RemoveAll(d)
+						c15Remove(d)
 						rec.Case(true, vt.Hash(h, kind, k, short), "fault:"+kind)
 						if rec.WantSample("fault:" + kind) {
 							rec.Sample("fault:"+kind, fc)
@@ -395,6 +395,17 @@ func TestVerifC15Stores(t *testing.T) {
 			}
 		}
 	})
+}
+
+// c15Remove removes a store directory. The file store joins its prefix and the entry's path
+// with file.Join, which turns "vfault:///abs/dir" into "vfault://abs/dir": the files live under the
+// same path taken relative to the working directory, which has to be removed as well (a thorough run
+// left millions of files behind otherwise).
+func c15Remove(d string) {
+	os.RemoveAll(d)
+	if rel := strings.TrimPrefix(d, "/"); rel != d && rel != "" {
+		os.RemoveAll(rel)
+	}
 }
 
 func c15SigOf(err error) string {
